@@ -227,7 +227,9 @@ def eager_integrate_gaussian_gaussian(log_measure, integrand, reduced_vars):
             inputs = OrderedDict(
                 (k, d) for t in (log_measure, integrand) for k, d in t.inputs.items()
             )
-            lhs_white_vec, lhs_prec_sqrt = align_gaussian(inputs, log_measure)
+            lhs_white_vec, lhs_prec_sqrt = align_gaussian(
+                inputs, log_measure, expand=True
+            )
             rhs_white_vec, rhs_prec_sqrt = align_gaussian(inputs, integrand)
             lhs = Gaussian(
                 white_vec=lhs_white_vec, prec_sqrt=lhs_prec_sqrt, inputs=inputs
